@@ -83,7 +83,6 @@ static int c18_errno_poison=0;
 static void *c18_work(void *arg){
   c18_job *J=arg; buf_t out={0,0,0};
   { const char *sp=getenv("VERIF_STACK_POISON"); if(sp&&atoi(sp)>0)c18_stack_poison(atoi(sp)); }
-  { const char *ep=getenv("VERIF_ERRNO_POISON"); c18_errno_poison=ep?atoi(ep):0; }
   J->hash=14695981039346656037ULL; J->pcmhash=14695981039346656037ULL; J->pcm=0; J->bytes=0;
   J->rc=c18_encode(J,&out);
   if(J->rc){ free(out.p); return NULL; }
@@ -120,6 +119,7 @@ static void *c18_work(void *arg){
 
 static int c18_main(int argc,char **argv){
   char *line; char *tok[16];
+  { const char *ep=getenv("VERIF_ERRNO_POISON"); c18_errno_poison=ep?atoi(ep):0; }   /* once, before any thread runs (a write per thread was a race of the harness's own) */
   while((line=readline_(stdin))){
     int n=split(line,tok,16);
     if(n==0){ free(line); continue; }
